@@ -260,6 +260,8 @@ def catalog(hl):
         ('fold', 'v', coll, lambda u: hl.fold(lambda a, e: a + 1, 0, u)),
         ('fold_f', 'v', numarr, lambda u: hl.fold(lambda a, e: a + e, 0.5, u)),
         ('scan_a', 'v', arr, lambda u: hl.array_scan(lambda a, e: a + 1, 0, u)),
+        ('fold_coerce_zero', 'v', numarr, lambda u: hl.fold(lambda a, e: a + e / 2, 0, u)),
+        ('scan_coerce_zero', 'v', numarr, lambda u: hl.array_scan(lambda a, e: a + e / 2, 0, u)),
         ('group_by', 'v', coll, lambda u: hl.group_by(lambda e: hl.str(e), u)),
         ('any', 'b', coll, lambda u: hl.any(lambda e: hl.is_defined(e), u)),
         ('all', 'b', coll, lambda u: hl.all(lambda e: hl.is_defined(e), u)),
